@@ -240,6 +240,38 @@ def h_conv_width(ctx):
             ctx.holds("helper refuses other widths with ValueError", sym_and(sym_not(ok), isinstance(e, ValueError)), exc_name(e))
 
 
+def h_eq_octets(ctx, w, n):
+    """a field equals an octet string exactly when the string is the field's own big-endian octets (same length included)"""
+    _ctx[0] = ctx
+    v = ctx.int("v", 0, (1 << (8 * w)) - 1)
+    f = UnsignedByteField(v, w)
+    raw = ctx.octets("raw", n)
+    e, r = call(lambda: f == raw)
+    same = sym_and(*[a == b for a, b in zip(items_of(raw), be(v, w))]) if n == w else False
+    ctx.holds("field == octet string iff it is the field's own octets", e is None and (r == same), exc_name(e))
+
+
+def h_assigned_buffer(ctx, w):
+    """octets assigned from the caller's mutable buffer are copied in: the field does not follow the buffer, and what as_bytes
+    hands out is the field's value, not a handle on its inside"""
+    _ctx[0] = ctx
+    f = UnsignedByteField(ctx.int("v", 0, (1 << (8 * w)) - 1), w)
+    buf = ctx.octets("buf", w, mutable=True)
+    want = from_be(list(items_of(buf)))
+    f.value = buf
+    for i in range(w):
+        buf[i] = 0xA5
+    ctx.holds("field unaffected by later writes to the assigned bytearray", views_ok(f, want, w))
+    out = f.as_bytes
+    e, _ = call(lambda: out.extend(b"\x01"))          # bytes: AttributeError; a leaked bytearray would grow the field
+    ctx.holds("as_bytes hands out immutable octets; the field keeps its width", views_ok(f, want, w) and len(f.as_bytes) == w)
+    e, h1 = call(lambda: hval(f))
+    ctx.holds("still hashable and equal to a fresh field", e is None and sym_and(h1 == hval(UnsignedByteField(want, w)), f == UnsignedByteField(want, w)),
+              exc_name(e))
+    g = ByteFieldGenerator.from_bytes(w, ctx.bytes_of(list(be(want, w)), mutable=True))
+    ctx.holds("generator from a bytearray: same", views_ok(g, want, w) and call(lambda: hval(g))[0] is None)
+
+
 def h_generator_fresh(ctx, w, base):
     """what the width-dispatching generator hands out belongs to the caller: changing one result does not change what a later
     call with the same arguments returns (narrow window of values so that a memoising implementation stays explorable)"""
@@ -261,6 +293,12 @@ def h_generator_fresh(ctx, w, base):
 
 def cases(tier):
     cs = []
+    for w in WIDTHS:
+        cs.append(Case("assigned-buffer-w%d" % w, "setter", h_assigned_buffer, dict(w=w), bounds="width %d, all old values, all assigned octets" % w))
+        for n in sorted(set((0, 1, w - 1, w, w + 1, 2 * w))):
+            if n >= 0:
+                cs.append(Case("eq-octets-w%d-n%d" % (w, n), "eqhash", h_eq_octets, dict(w=w, n=n),
+                               bounds="field of width %d (all values) compared with every octet string of length %d" % (w, n)))
     for w in WIDTHS:
         for base in tier_pick(tier, (0, 0x1234567890ABCDEF), (0, 0x1234567890ABCDEF, 0xFFFFFFFFFFFFFFFF, 0x80)):
             cs.append(Case("generator-fresh-w%d-%x" % (w, base & ((1 << (8 * w)) - 64)), "views", h_generator_fresh, dict(w=w, base=base),
